@@ -70,6 +70,24 @@ def gen_postings(items):
     items.append(lambda: D('TERMINFO_BLOCK_LEN', const('src/termdict/fst_termdict/term_info_store.rs', 'BLOCK_LEN'), 'term_info_store.rs'))
     items.append(lambda: D('VINT_STOP_BIT', const('common/src/vint.rs', 'STOP_BIT'), 'common/src/vint.rs'))
 
+    items.append(lambda: D('EXPULL_FIRST_BLOCK_NUM', const('stacker/src/expull.rs', 'FIRST_BLOCK_NUM'), 'stacker/src/expull.rs'))
+    items.append(lambda: D('ARENA_NUM_BITS_PAGE_ADDR', const('stacker/src/memory_arena.rs', 'NUM_BITS_PAGE_ADDR'), 'stacker/src/memory_arena.rs'))
+
+    def expull_shape():
+        f = 'stacker/src/expull.rs'
+        body = _fn_body2(f, 'get_block_size')
+        m = re.search(r'block_num\.min\((\d+)u32\)', body)
+        if not m or '(1u32 << exp) as u16' not in body:
+            raise Fail(f'{f}: get_block_size outside the recognised shape (1 << min(block_num, MAX))')
+        ens = _fn_body2(f, 'ensure_capacity')
+        if 'arena.allocate_space(allocate as usize + mem::size_of::<Addr>())' not in ens or 'arena.write_at(eull.tail, new_block_addr)' not in ens:
+            raise Fail(f'{f}: ensure_capacity outside the recognised shape (block + Addr allocated, next pointer written at the old tail)')
+        rd = _fn_body2(f, 'read_to_end')
+        if 'for block_num in FIRST_BLOCK_NUM + 1..self.block_num' not in rd or 'arena.read(addr.offset(cap as u32))' not in rd:
+            raise Fail(f'{f}: read_to_end outside the recognised shape')
+        return D('EXPULL_MAX_EXP', int(m.group(1)), f + ': get_block_size')
+    items.append(expull_shape)
+
     def vint_radix():
         body = _fn_body2('common/src/vint.rs', 'serialize_into')
         m = re.search(r'remaining\s*%\s*(\d+)u64', body)
@@ -250,5 +268,69 @@ def gen_postings(items):
               f'{skip}: fields of SkipReader::new not re-initialised by reset: {missing} (new: {sorted(new_fields)})'),
             D('BLOCKPOSTINGS_RESET_MISSING', len(bmissing), f'{bf}::reset: missing {bmissing}')])
     items.append(reset_covers_new)
+
+    def json_positions_scope():
+        # the per-path position map is cleared for every (document, JSON field): C07_json_positions_per_path
+        f = 'src/indexer/segment_writer.rs'
+        body = re.sub(r'\s+', '', _fn_body2(f, 'index_document'))
+        i = body.find('FieldType::JsonObject(')
+        if i < 0:
+            raise Fail(f'{f}: JsonObject arm of index_document not found')
+        j = body.find('FieldType::IpAddr(', i)
+        arm = body[i:j if j > 0 else len(body)]
+        k = arm.find('self.json_positions_per_path.clear();')
+        l = arm.find('forjson_valueinvalues{')
+        if k < 0 or l < 0 or k > l:
+            raise Fail(f'{f}: json_positions_per_path is no longer cleared at the start of the JsonObject arm (per document and field)')
+        if '&mutself.json_positions_per_path' not in arm[l:]:
+            raise Fail(f'{f}: index_json_value no longer receives json_positions_per_path')
+        ju = re.sub(r'\s+', '', _fn_body2('src/core/json_utils.rs', 'index_json_value'))
+        if 'letindexing_position=positions_per_path.get_position_from_id(unordered_id);postings_writer.index_text(' not in ju:
+            raise Fail('src/core/json_utils.rs: text leaves are no longer indexed against the per-path IndexingPosition')
+        return D('JSON_POSITIONS_CLEARED_PER_FIELD', 1, f'{f}: clear() at the start of the JsonObject arm; json_utils.rs: index_text(.., positions_per_path[path id])')
+    items.append(json_positions_scope)
+
+    def index_text_counts():
+        # num_tokens / total_num_tokens count the subscribed tokens only (tokens > MAX_TOKEN_LEN return early)
+        f = 'src/postings/postings_writer.rs'
+        body = re.sub(r'\s+', '', fn_body(f, 'index_text'))
+        a = body.find('iftoken.text.len()>MAX_TOKEN_LEN{')
+        b = body.find('self.subscribe(doc_id,start_position,term_buffer,ctx);num_tokens+=1;')
+        if a < 0 or b < 0 or b < a or body.count('num_tokens+=1;') != 1:
+            raise Fail(f'{f}: index_text no longer counts exactly the subscribed tokens')
+        if 'indexing_position.end_position=end_position+POSITION_GAP;indexing_position.num_tokens+=num_tokens;' not in body:
+            raise Fail(f'{f}: index_text: end_position / num_tokens update changed')
+        if 'letstart_position=indexing_position.end_position+token.positionasu32;end_position=end_position.max(start_position+token.position_lengthasu32);' not in body:
+            raise Fail(f'{f}: index_text: position arithmetic changed')
+        return D('INDEX_TEXT_SHAPE_OK', 1, f'{f}::index_text: start = end_position + token.position; end = max(.., start + position_length); + POSITION_GAP; only subscribed tokens counted')
+    items.append(index_text_counts)
+
+    def vint_u32_translated():
+        # the body of serialize_vint_u32 translated mechanically (extract/rs2lean.py): the
+        # `(res, num_bytes)` expression as a function of `val`; `*buf = res.to_le_bytes(); &buf[0..num_bytes]`
+        # is checked textually by vint_u32_ladder above
+        import importlib.util as _ilu
+        _spec = _ilu.spec_from_file_location('rs2lean_c07', os.path.join(os.path.dirname(os.path.abspath(__file__)), 'rs2lean.py'))
+        r2l = _ilu.module_from_spec(_spec); _spec.loader.exec_module(r2l)
+        f = 'common/src/vint.rs'
+        body = _fn_body2(f, 'serialize_vint_u32')
+        consts = {}
+        for name, expr in re.findall(r'const\s+((?:START|MASK)_\d)\s*:\s*u64\s*=\s*([^;]+);', body):
+            consts[name] = (eval_const_expr(expr, {k: v[0] for k, v in consts.items()}), 'u64')
+        m = re.search(r'const\s+STOP_BIT\s*:\s*u64\s*=\s*([^;]+);', body)
+        if not m:
+            raise Fail(f'{f}: serialize_vint_u32: local STOP_BIT not found')
+        consts['STOP_BIT'] = (eval_const_expr(m.group(1), {}), 'u64')
+        mm = re.search(r'let\s+val\s*=\s*u64::from\(val\);.*?let\s*\(res,\s*num_bytes\)\s*=\s*(.*?);\s*\*buf\s*=\s*res\.to_le_bytes\(\);', body, flags=re.S)
+        if not mm:
+            raise Fail(f'{f}: serialize_vint_u32: `let (res, num_bytes) = …; *buf = res.to_le_bytes();` not found')
+        syn = ('fn serialize_vint_u32_packed(val: u32) -> (u64, usize) {\n    let val = u64::from(val);\n    '
+               + mm.group(1) + '\n}\n')
+        try:
+            return (f'-- translated from {f}::serialize_vint_u32 (the `(res, num_bytes)` expression)\n'
+                    + r2l.translate_fn(syn, 'serialize_vint_u32_packed', consts, 'serialize_vint_u32_packed'))
+        except r2l.Unsupported as e:
+            raise Fail(f'{f}::serialize_vint_u32: outside the translatable subset: {e}')
+    items.append(vint_u32_translated)
 
     items.append(lambda: 'end Postings')
